@@ -2,10 +2,11 @@ CONSTANTS
   Pats = {"/a", "/*"}
   HKinds = {"plain", "ownO"}
   HostPats = {"one.test", "*.test"}
-  CorsCat <- Cat3
+  CorsCat <- Cat2
   MaxCalls = 5
   MaxRoutes = 5
   MaxHosts = 5
+  MaxCorsCalls = 1000000
   FullApi = TRUE
   ReqMethods = {"GET", "OPTIONS"}
   ReqHosts = {"", "one.test", "three.test"}
